@@ -44,7 +44,7 @@ warnings.filterwarnings("ignore")
 
 TOLQ = 1e-9
 TOLP = 1e-8
-EXPMS = ["eigen", "checked", "pade", "either"]
+EXPMS = ["eigen", "checked", "pade", "either", "default"]     # default: no set_expm call at all
 L5 = [0.0, 1e-6, 0.1, 1.0, 10.0]
 LEN_PAIRS = [(s, t) for s in L5 for t in L5 if s + t <= 10.0]
 LEN_PAIRS_QUICK = [(0.0, 1e-6), (1e-6, 0.1), (0.1, 1.0), (1.0, 1.0), (0.0, 10.0)]
@@ -222,6 +222,11 @@ def q_clauses(Q, w, stationary, reversible, Qspec=None):
             raise Broken("Q-detailed-balance", f"max |pi_i Q_ij - pi_j Q_ji| {d:.3e}")
 
 
+def _size(d):
+    """rounding-level disagreement (a tolerance question) vs. a grossly wrong matrix"""
+    return "[gross]" if d > 1e-4 else ""
+
+
 def p_clauses(P, Qt_ref, L, w, stationary, reversible):
     n = P.shape[0]
     if not numpy.isfinite(P).all():
@@ -229,15 +234,15 @@ def p_clauses(P, Qt_ref, L, w, stationary, reversible):
     if L == 0.0:
         d = abs(P - numpy.identity(n)).max()
         if d > TOLP:
-            raise Broken("P(0)-not-identity", f"max |P(0) - I| {d:.3e}")
+            raise Broken("P(0)-not-identity" + _size(d), f"max |P(0) - I| {d:.3e}")
     d = abs(P.sum(axis=1) - 1.0).max()
     if d > TOLP:
-        raise Broken("P-rowsum", f"P({L}): max |row sum - 1| {d:.3e}")
+        raise Broken("P-rowsum" + _size(d), f"P({L}): max |row sum - 1| {d:.3e}")
     if P.min() < -1e-10:
         raise Broken("P-negative", f"P({L}): min entry {P.min():.3e}")
     d = abs(P - Qt_ref).max()
     if d > TOLP:
-        raise Broken("P-differs-from-exp(Qt)", f"P({L}): max |P - exp(Qt)| {d:.3e}")
+        raise Broken("P-differs-from-exp(Qt)" + _size(d), f"P({L}): max |P - exp(Qt)| {d:.3e}")
     if stationary:
         d = abs(w @ P - w).max()
         if d > TOLP:
@@ -748,7 +753,7 @@ def gen_user(tier, seed):
             vseed = rnd.randrange(10 ** 6)
             for pk in (("g", "x") if thorough else ("g",)):
                 for (s, t) in pairs:
-                    for ex in (EXPMS if thorough else ("either", "eigen")):
+                    for ex in (EXPMS if thorough else ("either", "eigen", "default")):
                         yield [desc, names, weight, claim, val, vseed, PI4[pk], s, t, ex]
 
 
